@@ -87,6 +87,9 @@ def gen_list(R, depth=0):
         first = R.choice([{'cmd': 'd', 'loc': '+9'}, {'cmd': 'd', 'loc': '-9'}, {'cmd': 's', 'loc': '', 'pat': 'x', 'rep': 'X', 'g': False}, {'cmd': 'pu', 'loc': '', 'arg': 'z'},
                           {'cmd': 's', 'loc': '+9', 'pat': '$', 'rep': '?', 'g': False}])
         return [first, {'cmd': 's', 'loc': '', 'pat': '$', 'rep': tag, 'g': False}]
+    if k < 0.08:
+        # lines far below the matching line (and below a partial range) go away: the lines still to be visited are the marked ones, wherever they now are
+        return R.choice([[{'cmd': 'd', 'loc': '$'}], [{'cmd': 's', 'loc': '', 'pat': '$', 'rep': tag, 'g': False}, {'cmd': 'd', 'loc': '$'}], [{'cmd': 'd', 'loc': '$-1,$'}]])
     if k < 0.16:
         return [{'cmd': 'd', 'loc': ''}]
     if k < 0.30:
